@@ -112,16 +112,23 @@ func genTopo(rng *rand.Rand, i int) *topo {
 	add("second", "second")
 	if rng.Intn(3) > 0 {
 		c := add("cdn", "cdn")
-		c.Auth = []string{"none", "basic", "bearer", "bearer"}[rng.Intn(4)]
+		c.Auth = []string{"none", "basic", "bearer", "bearer", "bare401"}[rng.Intn(5)]
 		c.OwnRealm = true
 	}
 	if rng.Intn(2) == 0 {
 		x := add("external", "external")
-		x.Auth = []string{"none", "basic", "bearer"}[rng.Intn(3)]
+		x.Auth = []string{"none", "basic", "bearer", "bare401"}[rng.Intn(4)]
 		x.OwnRealm = true
 		// external URLs are requested directly (no redirect is involved), so a server that shares the
 		// registry's host name on another port is a different party for the client's own credential lookup
 		x.SameIP = rng.Intn(3) == 0
+	}
+	// a host the user configured for TLS (without verification) behind something that answers the TLS port in
+	// plain HTTP (a TLS-stripping box, a captive portal, the wrong port): the client must not fall back to clear text
+	for _, hs := range t.Hosts {
+		if (hs.Role == "second" || hs.Role == "mirror") && hs.Auth != "none" && rng.Intn(8) == 0 {
+			hs.TLS = "stripped"
+		}
 	}
 	// redirect targets and external hosts are reached with the upstream's transport settings: they can only
 	// use TLS when the upstream does not pin a certificate (the test certificate is bound to 127.0.0.1)
@@ -165,7 +172,7 @@ func (t *topo) build(rng *rand.Rand) {
 		if tls == "tls" {
 			ip = "127.0.0.1" // a registry and its own token endpoint may share the host name
 		}
-		return t.w.NewHostOn(name, ip, tls != "plain")
+		return t.w.NewHostOn(name, ip, tls != "plain" && tls != "stripped")
 	}
 	upIP := ""
 	for _, hs := range t.Hosts {
@@ -186,6 +193,9 @@ func (t *topo) build(rng *rand.Rand) {
 		}
 		a := &modelreg.AuthCfg{User: hs.user, Pass: hs.pass, Service: "svc-" + hs.Name, Prefix: secret(rng, "tk"+hs.Name)}
 		switch hs.Auth {
+		case "bare401":
+			// rejects with a plain 401 that names no scheme: there is nothing to answer, and nobody's login to offer
+			a.Mode = "bare401"
 		case "basic":
 			a.Mode = "basic"
 		case "bearer":
@@ -307,7 +317,7 @@ func (t *topo) client(logBuf io.Writer) *regclient.RegClient {
 		case "tls":
 			c.TLS = config.TLSEnabled
 			c.RegCert = hs.h.CertPEM()
-		case "insecure":
+		case "insecure", "stripped":
 			c.TLS = config.TLSInsecure
 		}
 		if hs.Auth != "none" && (hs.Role == "upstream" || hs.Role == "mirror" || hs.Role == "second") {
@@ -513,12 +523,32 @@ func (t *topo) audit(logs string) {
 					how := "unsolicited"
 					if challengedBefore(t, e, group(e.Host)) {
 						how = "after-challenge"
+						if recv != nil && recv.Auth == "bare401" {
+							how = "after-bare-401" // a 401 that names no scheme is not a challenge anybody can answer
+						}
 					}
 					run.Violation(fmt.Sprintf("leak/%s/%s-of-%s-sent-to-%s/%s", how, kind, o.hs.Role, recvRole, e.Kind),
 						fmt.Sprintf("%s of host %s (%s) was received by host %s in %s %s (request kind %s, %s: the receiver had%s challenged before)", kind, o.hs.Name, o.hs.Role, e.Host, e.Method, e.Path, e.Kind, how, map[bool]string{true: "", false: " not"}[how == "after-challenge"]),
 						map[string]any{"topology": t.key(), "receiver": e.Host, "owner": o.hs.Name, "request": e.Method + " " + e.RawURL, "authorization_header_prefix": prefix(e.Auth, 12)})
 					break
 				}
+			}
+		}
+	}
+	// clear text to a host that is configured for TLS but answers its port in plain HTTP
+	for _, hs := range t.Hosts {
+		if hs.TLS != "stripped" {
+			continue
+		}
+		run.Count("topologies_with_a_tls_stripped_host", 1)
+		for _, e := range t.w.Log() {
+			if e.Host == hs.h.Name || (hs.tokenHost != nil && e.Host == hs.tokenHost.Name) {
+				kind := "request"
+				if e.Auth != "" {
+					kind = "credentials"
+				}
+				run.Violation("cleartext-to-tls-host/stripped/"+hs.Role+"/"+kind, fmt.Sprintf("host %s is configured for TLS (verification off) and answers its port in plain HTTP: the client went on in clear text (%s %s, Authorization present: %t)", hs.Name, e.Method, e.Path, e.Auth != ""), map[string]any{"topology": t.key(), "request": e.Method + " " + e.RawURL})
+				break
 			}
 		}
 	}
